@@ -1,7 +1,7 @@
 (** ArithUint256 at its real width: the theorems of U256Basics/U256Shift/U256Div
     instantiated for well-formed 32-byte arrays ([wf]) and modulus 2^256. *)
 From Coq Require Import ZArith Lia List Bool.
-From VB Require Import Base.Bits Arith.CompactDefs Arith.U256Defs Arith.U256Basics Arith.U256Shift Arith.U256Div.
+From VB Require Import Base.Bits Arith.CompactDefs Arith.U256Defs Arith.U256Basics Arith.U256Shift Arith.U256Coded Arith.U256Div.
 Import ListNotations.
 Local Open Scope Z_scope.
 
@@ -102,3 +102,12 @@ Proof. intros [Ha La]. apply toBits_b_spec; assumption. Qed.
 (** the hypotheses are satisfiable by non-trivial values *)
 Example wf_example : wf (of_u64 1234567890123) /\ uval (of_u64 1234567890123) = 1234567890123.
 Proof. destruct (of_u64_exact 1234567890123 ltac:(split; [discriminate|reflexivity])) as [H1 H2]. split; assumption. Qed.
+
+(** the literal loops ([shl], [shr], [ubits]: what the theorems above are about)
+    coincide with the gather formulations [shl_g], [shr_g], [ubits_g] *)
+Theorem shifts_coded_eq_gather a sh : wf a -> 0 <= sh ->
+  shl a sh = shl_g a sh /\ shr a sh = shr_g a sh /\ ubits a = ubits_g a.
+Proof.
+  intros [Ha La] Hs. split; [apply shl_coded_eq_gather; assumption|].
+  split; [apply shr_coded_eq_gather; assumption|apply ubits_coded_eq_gather; assumption].
+Qed.
